@@ -57,6 +57,7 @@ UNIVERSE = [
     ("exception", lambda: Exception("as value")), ("valueerror", lambda: ValueError("v")), ("type", lambda: int),
     ("complex", lambda: 1j), ("ellipsis", lambda: ...),
 ]
+TE_LABELS = ["te-bare", "te-path", "te-locations", "te-located", "raise-te-located"]
 CORE = ["None", "1", "'abc'", "1.5", "True", "nan", "2^31", "dict-typename-O", "dict-typename-unknown", "exception",
         "list", "'RED'"]
 UDICT = dict(UNIVERSE)
@@ -229,8 +230,27 @@ def check_case(schema, engine, kind, fname, ftype, label, value, out, shape):
             "replay": {"kind": kind, "shape": shape, "label": label, "tier_shapes": len(shape)}})
 
 
-def value_of(label):
-    """labels: 'x' | '[x]' | '[x,y]' | '[[x]]'"""
+def _te(label, path):
+    from tartiflette.types.exceptions.tartiflette import TartifletteError
+    from tartiflette.language.ast import Location
+    loc = [Location(line=1, column=3, line_end=1, column_end=4)]
+    if label == "te-bare":
+        return TartifletteError("upstream refused")
+    if label == "te-path":
+        return TartifletteError("upstream refused", path=list(path))
+    if label == "te-locations":
+        return TartifletteError("upstream refused", locations=loc)
+    return TartifletteError("upstream refused", path=list(path), locations=loc)  # e.g. an error forwarded by a gateway
+
+
+def value_of(label, fname=None):
+    """labels: 'x' | '[x]' | '[x,y]' | '[[x]]' ; te-* labels build library errors that carry their own path / locations"""
+    if label in TE_LABELS:
+        return _te(label, (fname,))
+    if label.startswith("[") and label[1:-1] in TE_LABELS:
+        return [_te(label[1:-1], (fname, 0))]
+    if label.startswith("[1|") and label[3:-1] in TE_LABELS:
+        return [1, _te(label[3:-1], (fname, 1))]
     if label.startswith("[[") and label.endswith("]]"):
         return [[UDICT[label[2:-2]]()]]
     if label.startswith("[") and label.endswith("]"):
@@ -240,9 +260,9 @@ def value_of(label):
 
 
 def labels_for(shape, tier="quick"):
-    labels = [l for l, _ in UNIVERSE]
+    labels = [l for l, _ in UNIVERSE] + [l for l in TE_LABELS if l != "raise-te-located"]
     if "[" in shape:
-        labels += ["[%s]" % l for l, _ in UNIVERSE]
+        labels += ["[%s]" % l for l, _ in UNIVERSE] + ["[%s]" % l for l in TE_LABELS[:4]] + ["[1|%s]" % l for l in TE_LABELS[:4]]
         pair_src = [l for l, _ in UNIVERSE] if tier == "thorough" else CORE
         labels += ["[%s|%s]" % (a, b) for a in pair_src for b in pair_src if "|" not in a and "|" not in b]
     if "[[" in shape:
@@ -261,7 +281,7 @@ def run_shard(item):
            "machinery": []}
     labels = labels_for(shape, tier)
     for label in labels:
-        check_case(schema, engine, kind, fname, ftype, label, value_of(label), out, shape)
+        check_case(schema, engine, kind, fname, ftype, label, value_of(label, fname), out, shape)
     out["counts"]["fields"] = 1
     out["counts"]["cases"] = len(labels)
     if si == 2:
@@ -297,5 +317,5 @@ def replay(rec):
     engine = harness.build_engine(schema)
     fname = seeds.w_field_name(r["kind"], si)
     out = {"counts": {"evaluations": 0}, "tables": {"outcomes": {}}, "violations": []}
-    check_case(schema, engine, r["kind"], fname, schema.field_def("Query", fname).type, r["label"], value_of(r["label"]), out, r["shape"])
+    check_case(schema, engine, r["kind"], fname, schema.field_def("Query", fname).type, r["label"], value_of(r["label"], fname), out, r["shape"])
     return out["violations"]
